@@ -3,6 +3,7 @@ From Coq Require Import List Bool String ZArith NArith QArith.
 Import ListNotations.
 Require Adj XorConv AdjGen TableAdj GenProofs_RevMeas GenProofs_EaNoise.
 Require Import Stab Act Spec SpecProofs Gen_GateTable Gen_RevTrack GenProofs_RevTrack.
+Require GenProofs_TabMeas.
 
 (* (1) Tie G: every unitary undo_* routine of the reverse tracker (translated from sparse_rev_frame_tracker.cc), applied per
        detector to (d in xs[q], d in zs[q]), is the unsigned action of the table's INVERSE gate; nothing refused, nothing
@@ -68,3 +69,10 @@ Proof. exact parity_form_is_xor_of_values. Qed.
 Example C03_nonvacuous : (exists g f, In (g, f) rev_do1) /\ (exists g f, In (g, f) rev_do2).
 Proof. split; [ destruct rev_do1 as [|[g f] l] eqn:E | destruct rev_do2 as [|[g f] l] eqn:E ];
   try (vm_compute in E; discriminate); repeat eexists; left; reflexivity. Qed.
+
+(* ErrorAnalyzer's MXX / MYY / MZZ segments, regenerated from source: its own single-qubit undo routine for basis B on every
+   first target, conjugated by the tracker's routine for a self-inverse table gate taking B (x) B to B (x) I. *)
+Theorem C03_pair_measurement_segments_measure_the_product : GenProofs_TabMeas.seg_class_ok "analyzer" = true.
+Proof. exact GenProofs_TabMeas.analyzer_pair_segments_ok. Qed.
+Print Assumptions C03_pair_measurement_segments_measure_the_product.
+
